@@ -2,6 +2,7 @@ package slog
 
 import (
 	"path/filepath"
+	"runtime"
 	"strings"
 )
 
@@ -118,4 +119,32 @@ func VH_C18() {
 		}
 		vKnown("")
 	}
+}
+
+// VH_C18R: the caller field of a record is hardened whatever the other
+// formatting flags are. A record is written from a call site whose directory
+// is registered as protected; privacy hardening and the caller field are on,
+// every other flag bit is arbitrary; the payload must not contain the
+// protected directory.
+func VH_C18R() {
+	vProduction()
+	file, _ := runtime.FuncForPC(vPC1()).FileLine(vPC1())
+	dir := filepath.Dir(file)
+	AddKnownPathMapping(dir, "~r")
+	rec := &vRec{}
+	lg := vC09Logger("x", rec, vChoose(4))
+	// any combination of the other flag bits (each print-related bit on or off)
+	others := []Flags{Ldate, Ltime, Lmicroseconds, LlocalTime, Lattrs, LattrsR, Llineno, Lcallerpackagename, Lprivacypathregexp, LsmartJSONMode}
+	f := Lcaller | Lprivacypath
+	for _, b := range others {
+		if vBool() {
+			f |= b
+		}
+	}
+	flags = f
+	lg.WriteThru(vCtx, InfoLevel, vTime0(), vPC1(), "m", Attrs{NewAttr("k", 1)})
+	vAssert(len(rec.evs) == 1, "C18: one record")
+	vCover("C18R:written")
+	vAssert(!strings.Contains(rec.evs[0].P, dir), "C18: the caller field of a record never shows a protected directory")
+	vAssert(strings.Contains(rec.evs[0].P, "zz_verif_c09h.go"), "C18: the caller field names the call site's file")
 }
